@@ -40,6 +40,7 @@ THEOREMS = [
     "KrroodVerif.Dom.C03_shape_full",
     "KrroodVerif.Dom.C03_shape_cex",
     "KrroodVerif.Dom.C03_shape_ok_tight",
+    "KrroodVerif.Dom.C03_shape_handed_out_cached",
     "KrroodVerif.RuleHist.C03_rules_sequential",
     "KrroodVerif.RuleHist.C03_rules_interleaved",
     "KrroodVerif.RuleHist.C03_cex_rule_abandoned",
@@ -140,7 +141,7 @@ def _check_generated(tag: str, text: str, names):
 def extra_obligations():
     """Second, translator-based tie. From /repo's CURRENT hashed_data.py regenerate the `IterShape` of
     HashedIterable.__iter__/__bool__ and have the kernel re-check, by `decide`, that it is one of the two hand-written
-    machines (`Dom.shape` / `Dom.shapeIdx`) and satisfies `IterOk` (Props/C03Shape.lean turns that into the property on
+    machines (`Dom.shape` / `Dom.shapeIdx`) or the snapshot variant, and satisfies `IterOk` (Props/C03Shape.lean turns that into the property on
     every non-overlapping schedule, for all domains and query families) — and `IterFullOk` (every schedule) once F-C03-1
     is not an open finding any more."""
     import core
